@@ -289,6 +289,23 @@ class Program:
                 self.type_alias[it[1]] = it[2].split("<")[0].strip().split("::")[-1].strip()
 
 
+class SliceView(list):
+    """a mutable sub-slice (split_at_mut): a copy of base[lo:hi] whose writes go through to the base vector"""
+
+    def __init__(self, base, lo, hi):
+        super().__init__(base[lo:hi])
+        self.base = base
+        self.lo = lo
+
+    def __setitem__(self, i, v):
+        super().__setitem__(i, v)
+        if isinstance(i, slice):
+            start, stop, step = i.indices(len(self))
+            self.base[self.lo + start:self.lo + stop:step] = v
+        else:
+            self.base[self.lo + (i if i >= 0 else len(self) + i)] = v
+
+
 class Interp:
     def __init__(self, prog, solver=None):
         self.prog = prog
@@ -1323,6 +1340,11 @@ class Interp:
             full2 = "::".join(segs[-2:])
             if full2 in self.fn_models:
                 return self.fn_models[full2](self, args)
+            if full2 in ("cmp::min", "cmp::max") and len(args) == 2:
+                c = self.cmp("<=" if name == "min" else ">=", args[0], args[1])
+                if isinstance(c, bool):
+                    return args[0] if c else args[1]
+                return z3.If(c, to_bv(args[0]), to_bv(args[1]))
             if len(segs) >= 2:
                 owner = segs[-2]
                 if owner == "Self" and env.has("Self"):
@@ -1580,6 +1602,18 @@ class Interp:
         raise Unsupported("str method %s on %r" % (name, recv))
 
     def list_method(self, recv, name, args):
+        if name in ("split_at_mut", "split_at") and isinstance(args[0], int):
+            mid = args[0]
+            if mid > len(recv):
+                raise RustPanic("mid > len in split_at")
+            return (SliceView(recv, 0, mid), SliceView(recv, mid, len(recv)))
+        if name == "copy_from_slice":
+            src = list(args[0])
+            if len(src) != len(recv):
+                raise RustPanic("source slice length (%d) does not match destination slice length (%d)" % (len(src), len(recv)))
+            for i_, x_ in enumerate(src):
+                recv[i_] = x_
+            return ()
         if name == "retain":
             keep = [x for x in list(recv) if self.branch(to_bool(self.call_value(args[0], [x])))]
             recv[:] = keep
